@@ -31,6 +31,11 @@ type Script struct {
 	Term     string `json:"term,omitempty"`     // "eof" | "err": sticky terminal condition
 	EOFWith  bool   `json:"eofWith,omitempty"`  // the terminal condition is returned together with the last data
 	CloseErr bool   `json:"closeErr,omitempty"` // the underlying stream's Close returns an error (it is closed all the same)
+	// After: what the underlying stream answers once it has delivered its terminal condition: "" = the same condition
+	// again (sticky), "eof" = io.EOF. Generated only where no probe can meet the terminal condition itself (the body is
+	// not empty and every probe precedes the first read): a probe that is handed the terminal condition consumes it, which
+	// the sticky streams of DESIGN.md section 6 hide and which is not judged.
+	After string `json:"after,omitempty"`
 	// CL: how the length is declared.
 	//   "absent"   no Content-Length header, ContentLength field -1 (what a server sees for a chunked request)
 	//   "absent0"  no header, field 0 (what a client-side request with an unknown-length reader carries)
@@ -78,16 +83,18 @@ func (s Script) declared() bool         { return s.declaredPositive() || s.CL ==
 
 // stream is the scripted underlying body.
 type stream struct {
-	data       []byte
-	pos        int
-	chunks     []int
-	ci         int
-	term       error
-	eofWith    bool
-	closeErr   bool
-	closes     int
-	afterClose int // Read calls that reached the stream after it was closed
-	reads      int
+	data          []byte
+	pos           int
+	chunks        []int
+	ci            int
+	term          error
+	eofWith       bool
+	closeErr      bool
+	after         string
+	termDelivered bool
+	closes        int
+	afterClose    int // Read calls that reached the stream after it was closed
+	reads         int
 }
 
 func (s *stream) Read(p []byte) (int, error) {
@@ -97,7 +104,11 @@ func (s *stream) Read(p []byte) (int, error) {
 		return 0, errAfterClose
 	}
 	if s.pos >= len(s.data) {
-		return 0, s.term // sticky
+		if s.after == "eof" && s.termDelivered {
+			return 0, io.EOF
+		}
+		s.termDelivered = true
+		return 0, s.term // sticky unless After says otherwise
 	}
 	if len(p) == 0 {
 		return 0, nil
@@ -117,6 +128,7 @@ func (s *stream) Read(p []byte) (int, error) {
 	copy(p, s.data[s.pos:s.pos+n])
 	s.pos += n
 	if s.pos == len(s.data) && s.eofWith {
+		s.termDelivered = true
 		return n, s.term
 	}
 	return n, nil
@@ -207,7 +219,7 @@ func Check(c Case) *kit.Violation {
 	case "script":
 		data = sc.bytes()
 		term = sc.term()
-		st = &stream{data: data, chunks: sc.Chunks, term: term, eofWith: sc.EOFWith, closeErr: sc.CloseErr}
+		st = &stream{data: data, chunks: sc.Chunks, term: term, eofWith: sc.EOFWith, closeErr: sc.CloseErr, after: sc.After}
 		req.Body = st
 	case "nobody":
 		req.Body = http.NoBody
@@ -278,7 +290,8 @@ func Check(c Case) *kit.Violation {
 			if pos != len(data) {
 				return kit.Failf("%s: terminal condition %v after %d of %d bytes (%s)", what, rerr, pos, len(data), hist(i))
 			}
-			if rerr != term {
+			// the first terminal condition the body hands out is the stream's; what a non-sticky stream answers afterwards is its own business
+			if rerr != term && !(termSeen && sc.After != "") {
 				return kit.Failf("%s: terminal condition is %v, the stream ends with %v (%s)", what, rerr, term, hist(i))
 			}
 			termSeen = true
@@ -437,6 +450,21 @@ func Gen(t *rapid.T) Case {
 		}
 		c.Ops = append(c.Ops, op)
 	}
+	// a non-sticky stream (terminal error once, then EOF), where no probe can be handed the terminal condition itself
+	if c.Script.Body == "script" && c.Script.Len > 0 && c.Script.Term == "err" && rapid.IntRange(0, 2).Draw(t, "nonsticky") == 0 {
+		ok, read := true, false
+		for _, op := range c.Ops {
+			if op.K == "read" || op.K == "close" {
+				read = true
+			}
+			if op.K == "has" && read {
+				ok = false
+			}
+		}
+		if ok {
+			c.Script.After = "eof"
+		}
+	}
 	return c
 }
 
@@ -518,6 +546,9 @@ func Classify(c Case) (bool, []string) {
 		}
 		if s.CloseErr {
 			labels = append(labels, "underlying Close fails")
+		}
+		if s.After != "" {
+			labels = append(labels, "non-sticky stream (error once, then EOF)")
 		}
 		if s.EOFWith {
 			labels = append(labels, "data+terminal together")
